@@ -60,7 +60,10 @@ theorem WInv_trySend {F : Bytes} (cfg : Cfg Msg) {c : Conn Msg} (now : Nat) (s :
   split
   · exact WInv_timeoutCheck cfg now h
   · rename_i hs
-    exact WInv_sendLoop s hs (WInv_timeoutCheck cfg now h)
+    have h1 := WInv_sendLoop s hs (WInv_timeoutCheck cfg now h)
+    split
+    · exact WInv_of_same (c := sendLoop (timeoutCheck cfg c now) s) rfl (fun hs' => ⟨rfl, hs'⟩) h1
+    · exact h1
 
 theorem WInv_recvLoop {F : Bytes} (r : List RecvRes) : ∀ {c : Conn Msg}, WInv F c → WInv F (recvLoop c r) := by
   induction r with
@@ -79,14 +82,13 @@ theorem WInv_recvLoop {F : Bytes} (r : List RecvRes) : ∀ {c : Conn Msg}, WInv 
         · exact ih (WInv_of_same (c := c) rfl (fun hs => ⟨rfl, hs⟩) h)
 
 theorem WInv_parseLoop {F : Bytes} (cfg : Cfg Msg) (c : Conn Msg) : WInv F c → WInv F (parseLoop cfg c) := by
-  refine parseLoop_induct cfg (fun c c' => WInv F c → WInv F c') ?_ ?_ ?_ ?_ ?_ c
+  refine parseLoop_induct cfg (fun c c' => WInv F c → WInv F c') ?_ ?_ ?_ ?_ c
   · intro c _ h; exact h
   · intro c _ h; exact WInv_disconnect h
-  · intro c m rest _ _ h; exact WInv_of_same (c := c) rfl (fun hs => ⟨rfl, hs⟩) h
-  · intro c m rest _ _ _ h
+  · intro c m rest _ _ h
     exact WInv_disconnect (WInv_of_same (c := c) (c' := { c with rbuf := rest, delivered := c.delivered ++ [m] })
       rfl (fun hs => ⟨rfl, hs⟩) h)
-  · intro c m rest _ _ _ ih h
+  · intro c m rest _ _ ih h
     exact ih (WInv_of_same (c := c) rfl (fun hs => ⟨rfl, hs⟩) h)
 
 theorem WInv_readPart {F : Bytes} (cfg : Cfg Msg) {c : Conn Msg} (now : Nat) (r : List RecvRes) (h : WInv F c) :
